@@ -2,18 +2,21 @@
 package c15
 
 import (
+	"bytes"
 	"crypto/md5"
 	"fmt"
 	"os"
 	"sort"
 	"strings"
 	"testing"
+	"time"
 
 	dest "github.com/grafana/carbon-relay-ng/destination"
 	"github.com/grafana/carbon-relay-ng/matcher"
 	"github.com/grafana/carbon-relay-ng/route"
 	"pgregory.net/rapid"
 
+	"verifharness/internal/ep"
 	"verifharness/internal/ev"
 	"verifharness/internal/h"
 	"verifharness/internal/pyh"
@@ -134,6 +137,7 @@ func buildPosTable() {
 
 var dnsHosts = []string{"carbon-a", "carbon-b.example.com", "graphite01", "a", "b", "carbon-a.example.com", "zz-top", "10.0.0.1", "10.0.0.2", "192.168.1.10", "localhost"}
 var loopHosts = []string{"127.0.0.1", "127.0.0.2", "127.0.10.1", "127.1.1.1", "127.0.0.10", "localhost", "127.9.9.9"}
+var numericLoopHosts = []string{"127.0.0.1", "127.0.0.2", "127.0.10.1", "127.1.1.1", "127.0.0.10", "127.9.9.9"}
 var insts = []string{"", "", "a", "b", "c", "1", "cache-2", "A"}
 
 type destSpec struct {
@@ -332,28 +336,54 @@ func TestPropRouteAssignAndChurn(t *testing.T) {
 		// dedupe keys (assignment maps are per key)
 		keys = uniq(keys)
 
+		// live[i] != nil: destination i was re-pointed (modDest addr=...) to that listening endpoint and is connected
+		live := make([]*ep.Endpoint, len(curDests))
+		var allEps []*ep.Endpoint
+		defer func() {
+			for _, e := range allEps {
+				e.Close()
+			}
+		}()
 		assign := func() map[string]node {
-			// dispatch each key once and see which destination's counter moved
+			// dispatch each key once and see which destination accounts for it: a refusing destination counts it as
+			// dropped (no connection, no spool), a connected one delivers it to its endpoint
 			out := map[string]node{}
 			for _, k := range keys {
-				before := make([]int64, len(curDests))
-				for i, d := range curDests {
-					before[i] = h.DestDropNoConn(d.Key)
+				line := []byte(k + " 1 1500000000")
+				seen := func(i int) int64 {
+					d := curDests[i]
+					n := h.DestDropNoConn(d.Key) + h.Count("dest="+d.Key+".unit=Metric.action=drop.reason=slow_conn")
+					if live[i] != nil {
+						n += int64(bytes.Count(live[i].All(), append(append([]byte(nil), line...), '\n')))
+					}
+					return n
 				}
-				rt.Dispatch([]byte(k + " 1 1500000000"))
+				before := make([]int64, len(curDests))
+				for i := range curDests {
+					before[i] = seen(i)
+				}
+				rt.Dispatch(line)
 				rt.Flush()
 				hit := -1
-				for i, d := range curDests {
-					switch h.DestDropNoConn(d.Key) - before[i] {
-					case 0:
-					case 1:
-						if hit >= 0 {
-							t.Fatalf("key %q was handed to two destinations (%v and %v)", k, cur[hit], cur[i])
+				for deadline := time.Now().Add(10 * time.Second); ; {
+					hit = -1
+					for i := range curDests {
+						switch seen(i) - before[i] {
+						case 0:
+						case 1:
+							if hit >= 0 {
+								t.Fatalf("key %q was handed to two destinations (%v and %v)", k, cur[hit], cur[i])
+							}
+							hit = i
+						default:
+							t.Fatalf("key %q was handed to %v more than once", k, cur[i])
 						}
-						hit = i
-					default:
-						t.Fatalf("key %q was handed to %v more than once", k, cur[i])
 					}
+					if hit >= 0 || time.Now().After(deadline) {
+						break
+					}
+					time.Sleep(200 * time.Microsecond) // a connected destination delivers asynchronously
+					rt.Flush()
 				}
 				if hit < 0 {
 					t.Fatalf("key %q was handed to no destination (destinations %v)", k, cur)
@@ -375,8 +405,56 @@ func TestPropRouteAssignAndChurn(t *testing.T) {
 		ops := []string{}
 		nops := rapid.IntRange(1, 4).Draw(t, "nops")
 		moved := 0
+		modded := 0
 		for o := 0; o < nops; o++ {
-			if len(cur) > 1 && rapid.Bool().Draw(t, "remove") {
+			if rapid.IntRange(0, 3).Draw(t, "mod") == 0 {
+				// modDest <route> <idx> addr=host:port[:instance] -- re-point one destination to a listening endpoint
+				// (the address only changes when the connection attempt succeeds); the configured set changes, the ring must follow
+				i := rapid.IntRange(0, len(cur)-1).Draw(t, "idx")
+				var ns destSpec
+				for try := 0; ; try++ {
+					c := destSpec{host: rapid.SampledFrom(numericLoopHosts).Draw(t, "host"), inst: rapid.SampledFrom(insts).Draw(t, "inst")}
+					dup := false
+					for j, e := range cur {
+						if j != i && e.node() == c.node() {
+							dup = true
+						}
+					}
+					if !dup {
+						ns = c
+						break
+					}
+					if try > 50 {
+						t.Skip("no fresh destination")
+					}
+				}
+				e := ep.NewOn(ns.host + ":0")
+				allEps = append(allEps, e)
+				ns.port = fmt.Sprint(e.Port)
+				old := cur[i].node()
+				if err := chr.UpdateDestination(i, map[string]string{"addr": ns.addr()}); err != nil {
+					t.Fatalf("UpdateDestination(%d, addr=%s): %v", i, ns.addr(), err)
+				}
+				if !e.WaitAccept(1, 10*time.Second) {
+					t.Fatalf("HARNESS-ERROR: the re-pointed destination did not connect to %s", ns.addr())
+				}
+				cur = append([]destSpec(nil), cur...)
+				cur[i] = ns
+				live[i] = e
+				modded++
+				ops = append(ops, fmt.Sprintf("mod(%v->%v)", old, ns.node()))
+				a1 := assign()
+				check(a1, strings.Join(ops, ","))
+				for _, k := range keys {
+					if a0[k] != a1[k] {
+						moved++
+						if a0[k] != old && a1[k] != ns.node() {
+							t.Fatalf("re-pointing %v to %v moved key %q from %v to %v", old, ns.node(), k, a0[k], a1[k])
+						}
+					}
+				}
+				a0 = a1
+			} else if len(cur) > 1 && rapid.Bool().Draw(t, "remove") {
 				i := rapid.IntRange(0, len(cur)-1).Draw(t, "idx")
 				removed := cur[i].node()
 				if err := chr.DelDestination(i); err != nil {
@@ -384,6 +462,7 @@ func TestPropRouteAssignAndChurn(t *testing.T) {
 				}
 				cur = append(append([]destSpec(nil), cur[:i]...), cur[i+1:]...)
 				curDests = append(append([]*dest.Destination(nil), curDests[:i]...), curDests[i+1:]...)
+				live = append(append([]*ep.Endpoint(nil), live[:i]...), live[i+1:]...)
 				ops = append(ops, fmt.Sprintf("del(%v)", removed))
 				a1 := assign()
 				check(a1, strings.Join(ops, ","))
@@ -418,6 +497,7 @@ func TestPropRouteAssignAndChurn(t *testing.T) {
 				chr.Add(nd)
 				cur = append(cur, ns)
 				curDests = append(curDests, nd)
+				live = append(live, nil)
 				ops = append(ops, fmt.Sprintf("add(%v)", ns.node()))
 				a1 := assign()
 				check(a1, strings.Join(ops, ","))
@@ -432,7 +512,7 @@ func TestPropRouteAssignAndChurn(t *testing.T) {
 				a0 = a1
 			}
 		}
-		rec.Case(fmt.Sprintf("%v ops=%v keys=%d", specs, ops, len(keys)), moved > 0 && len(specs) >= 2, fmt.Sprintf("moved>0=%v", moved > 0))
+		rec.Case(fmt.Sprintf("%v ops=%v keys=%d", specs, ops, len(keys)), moved > 0 && len(specs) >= 2, fmt.Sprintf("moved>0=%v", moved > 0), fmt.Sprintf("re-pointed>0=%v", modded > 0))
 		rec.Num("keys_dispatched", int64(len(keys)*(nops+1)))
 	})
 }
